@@ -144,7 +144,7 @@ def main():
         subprocess.run(["git", "-C", "/repo", "worktree", "remove", "--force", wt], capture_output=True)
         shutil.rmtree(wt, ignore_errors=True)
     print(json.dumps(res, indent=1))
-    keep = os.environ.get("MUT_KEEP")
+    keep = os.environ.get("MUT_KEEP", "") not in ("", "0", "no", "false")
     if keep and res.get("patch_applies") and res.get("existing_suite_pass") and res.get("demo_with_patch_fail") and res.get("demo_without_patch_pass"):
         name = os.path.basename(os.path.dirname(os.path.dirname(mdir.rstrip("/")))) + "-" + os.environ.get("MUT_PREFIX", "") + os.path.basename(mdir.rstrip("/"))
         name = os.environ.get("MUT_KEEP_NAME", name)
